@@ -18,9 +18,9 @@ func init() { register(&profile{id: "C06", num: 6, name: "robust-parse", run: ru
 
 // coreWorlds are the hand-written worlds; miniWorlds port the grammar shapes of the repository's
 // own parser tests; exampleWorlds port the grammars under _examples.
-var coreWorlds = []*world{worldIni, worldExpr, worldHeredoc, worldBasic, worldConformance, worldCallbacks, worldDurations, worldMisc, worldTuple}
+var coreWorlds = []*world{worldIni, worldExpr, worldHeredoc, worldBasic, worldConformance, worldCallbacks, worldDurations, worldMisc, worldTuple, worldLines, worldDashed}
 
-var robustWorlds = append(append(append([]*world{}, coreWorlds...), miniWorlds...), exampleWorlds...)
+var robustWorlds = append(append(append(append([]*world{}, coreWorlds...), miniWorlds...), exampleWorlds...), exampleWorlds2...)
 
 // pickAnyParser is pickWorld for the profiles whose property quantifies over every parser, also
 // ones built from a grammar the library considers buggy.
@@ -39,6 +39,9 @@ func pickWorld() *world {
 	case 2:
 		return miniWorlds[simrt.Choose(len(miniWorlds))]
 	default:
+		if simrt.Choose(2) == 1 {
+			return exampleWorlds2[simrt.Choose(len(exampleWorlds2))]
+		}
 		return exampleWorlds[simrt.Choose(len(exampleWorlds))]
 	}
 }
@@ -110,7 +113,15 @@ func robustOne(rc *RunCtx) *Violation {
 	d := x
 	var fired []string
 	if subBatch != "faultfree" && !w.verbatim {
-		d, fired = deriveInput(rc, x, nil, allContentFaults)
+		// bias faults to token boundaries of the undamaged document (right after a sign, a quote, an
+		// opening bracket, ...)
+		var hot []int
+		if pre := lexCall(func() ([]lexer.Token, error) { return p.Lex("", strings.NewReader(x)) }); pre.Panic == "" {
+			if pt, ok := pre.Val.([]lexer.Token); ok {
+				hot = tokenEnds(pt)
+			}
+		}
+		d, fired = deriveInput(rc, x, hot, allContentFaults)
 	}
 	filename := "in.txt"
 	switch simrt.Choose(6) {
